@@ -79,6 +79,17 @@ inline void probe_copy_select_cv(const frg::optional<bool> &cob, frg::optional<b
 	frg::optional<wit::Elem> e1(coe); frg::optional<wit::Elem> e2(std::move(oe)); frg::optional<wit::Elem> e3(std::move(coe));
 	(void)b1; (void)b2; (void)b3; (void)g1; (void)g2; (void)g3; (void)e1; (void)e2; (void)e3;
 } }
+// `o = {}` empties an optional (as for std::optional): the braces must reach an assignment from optional itself, not a
+// value-assignment template whose defaulted U = T turns them into "assign a value-initialised T" (rule W.brace-assign-empties)
+namespace wit { inline void probe_brace_assign(frg::optional<int> &oi, frg::optional<bool> &ob, frg::optional<wit::Elem *> &op) {
+	oi = {}; ob = {}; op = {};
+} }
+// the forwarding constructions (rule W.emplace-direct-init) of eternal and manual_box with an argument
+namespace wit { inline void use_forwarding_holders(frg::manual_box<wit::Elem> &mb) {
+	static frg::eternal<wit::Elem> e(1);
+	(void)e.get();
+	mb.initialize(2);
+} }
 // lvalue uses of the tuple helpers: a reference-collapsing parameter instantiated as an lvalue reference must be
 // forwarded, never std::move()d (rule R.forward-collapsed)
 namespace wit { inline void use_tuple_lvalues(frg::tuple<int, char> &a, frg::tuple<long> &b, const frg::tuple<int, char> &ca) {
